@@ -244,6 +244,50 @@ def sample(par=2, workers=8, per_file=10, maxchecks=3):
     for t in ts: t.start()
     for t in ts: t.join()
 
+def followup(par=2, workers=8, more=4):
+    """mutants of results.jsonl that the first checks tried did not report: try the next `more` checks mapped to the file"""
+    res_file = "/verif/mutants/results.jsonl"
+    rs = [json.loads(l) for l in open(res_file)]
+    todo = [r for r in rs if not r.get("detected_by") and not r.get("followed_up")]
+    print(len(todo), "to follow up", flush=True)
+    import queue, threading
+    q = queue.Queue()
+    for t in todo: q.put(t)
+    lock = threading.Lock()
+    for k in range(par):
+        worktree(f"{M}/r{k}", "/repo"); worktree(f"{M}/v{k}", "/verif")
+    out_rows = {}
+    def work(k):
+        R, V = f"{M}/r{k}", f"{M}/v{k}"
+        env = dict(ENV, VERIF_HOME=V, VERIF_REPO=R, VERIF_WORKERS=str(workers), VERIF_FAILFAST="1")
+        while True:
+            try: r = q.get_nowait()
+            except queue.Empty: return
+            sh("git checkout -- .", cwd=R)
+            rc, out = sh(f"git apply {M}/survivors/{r['diff']}.diff", cwd=R)
+            tried = set(r["checks"].keys())
+            nxt = [c for c in TARGETS[r["file"]][1] if c not in tried][:more]
+            for c in nxt:
+                t0 = time.time()
+                rc, out = sh(f"{V}/check {c} quick", env=env, timeout=1500)
+                cl = sorted(set(re.findall(r"clause=(\S+)", out)))
+                r["checks"][c] = dict(exit=rc, clauses=cl[:6], secs=int(time.time() - t0))
+                if rc == 1:
+                    r["detected_by"] = c
+                    break
+            r["followed_up"] = True
+            sh("git checkout -- .", cwd=R)
+            with lock:
+                out_rows[(r["file"], r["id"])] = r
+                print(r["file"], r["id"], r["op"], "->", r.get("detected_by"), {c: v["exit"] for c, v in r["checks"].items()}, "|", r["desc"][:70], flush=True)
+    ts = [threading.Thread(target=work, args=(k,)) for k in range(par)]
+    for t in ts: t.start()
+    for t in ts: t.join()
+    rows = [out_rows.get((r["file"], r["id"]), r) for r in rs]
+    open(res_file, "w").write("".join(json.dumps(r) + "\n" for r in rows))
+    for k in range(par):
+        sh(f"git -C /repo worktree remove --force {M}/r{k}"); sh(f"git -C /verif worktree remove --force {M}/v{k}")
+
 def report():
     p1 = [json.loads(l) for l in open(f"{M}/phase1.jsonl")] if os.path.exists(f"{M}/phase1.jsonl") else []
     from collections import Counter
@@ -262,7 +306,9 @@ def report():
 
 if __name__ == "__main__":
     cmd = sys.argv[1]
-    if cmd == "sample":
+    if cmd == "followup":
+        followup(*[int(a) for a in sys.argv[2:]])
+    elif cmd == "sample":
         sample(*[int(a) for a in sys.argv[2:]])
     elif cmd == "phase1":
         phase1(workers=int(sys.argv[2]) if len(sys.argv) > 2 else 6)
